@@ -1007,9 +1007,9 @@ class Intrinsics:
         from . import abslist
         return abslist.s_len(P, v)
 
-    def s_alist_parts(self, P, v):
+    def s_alist_parts_is(self, P, v, n):
         from . import abslist
-        return abslist.s_parts(P, v)
+        return abslist.s_parts_is(P, v, n)
 
     def s_alist_same(self, P, a, b):
         from . import abslist
